@@ -117,7 +117,7 @@ theorem C02_gdef_cost_partial (cls cov : Gdef.Sub) (b : Bytes) (C : Nat)
     (hcls : ∀ p sz d, cls p = .ok (sz, d) → d.steps ≤ C ∧ d.alloc ≤ C)
     (hcov : ∀ p sz d, cov p = .ok (sz, d) → d.steps ≤ C ∧ d.alloc ≤ C)
     (t : Gdef.Table) (c : Cost) (h : Gdef.read cls cov b = .ok (t, c)) :
-    c.steps ≤ (b.length / 4 + 3) * (C + 2) + 4 ∧ c.alloc ≤ (b.length / 4 + 3) * (C + 2) + 1 :=
+    c.steps ≤ (b.length / 4 + 3) * (C + 2) + 4 ∧ c.alloc ≤ (b.length / 4 + 3) * (C + 3) + 1 :=
   Gdef.read_cost cls cov b C hcls hcov t c h
 
 /-- The allocation clause of C02 for `gdef.Read`, with the constants the harness checks
@@ -127,10 +127,21 @@ def C02_gdef_alloc_proportional : Prop :=
   ∀ (cls : Gdef.Sub) (b : Bytes) (t : Gdef.Table) (c : Cost),
     Gdef.read cls (Gdef.covK 65536) b = .ok (t, c) → c.alloc ≤ 4096 * b.length + 16777216
 
-/-- It fails (§9 #37): all mark-glyph-set offsets may point at one coverage table, and every
-visit is charged. -/
+/-- It fails (§9 #37).  Before the repair (patches/C02/04) all offsets could alias ONE table and every
+visit was charged (`C02_gdef_unrepaired_alias`); since the repair each distinct offset is decoded
+once, but distinct offsets still cost a full sub-read each (witness `Gdef.advDistinct 1000`). -/
 theorem C02_gdef_alloc_fails : ¬ C02_gdef_alloc_proportional := fun h =>
   Gdef.read_alloc_not_proportional (fun _ => .err "none") (fun b t c => h _ b t c)
+
+/-- The code before patches/C02/04: `n` aliased offsets cost `n·K`. -/
+theorem C02_gdef_unrepaired_alias (n K : Nat) (hn : n < 65536) (cls : Gdef.Sub) :
+    ∃ t c, Gdef.readOld cls (Gdef.covK K) (Gdef.adv n) = .ok (t, c) ∧ c.alloc = 1 + 2 * n + n * K ∧
+      (Gdef.adv n).length = 18 + 4 * n := Gdef.readOld_adv_alloc n K hn cls
+
+/-- The repaired code on the same aliasing input: ONE sub-read. -/
+theorem C02_gdef_alias_cached (n K : Nat) (hn : n < 65536) (cls : Gdef.Sub) :
+    ∃ t c, Gdef.read cls (Gdef.covK K) (Gdef.adv n) = .ok (t, c) ∧ c.alloc ≤ 3 + 2 * n + K ∧
+      (Gdef.adv n).length = 18 + 4 * n := Gdef.adv_alloc_cached n K hn cls
 
 /-! ## regenerated limits the models use as literals -/
 
